@@ -4,10 +4,12 @@
 
 package config
 
+//@ macro keysWellFormed(c *Config) bool = forall(k, inmap(c.Keys, k) ==> c.Keys[k] != nil)
+//@
 //@ func (*Config).GetKey
 //@   property C04
 //@   nopanic
-//@   requires forall(k, inmap(config.Keys, k) ==> config.Keys[k] != nil)
+//@   requires keysWellFormed(config)
 //@   ensures @success_is_the_key_behind_one_alias ret1 == nil ==> inmap(config.Keys, keyName) && \
 //@        ret0 == ite(config.Keys[keyName].Alias == "", config.Keys[keyName], config.Keys[config.Keys[keyName].Alias]) && \
 //@        (config.Keys[keyName].Alias != "" ==> inmap(config.Keys, config.Keys[keyName].Alias))
